@@ -212,11 +212,12 @@ def field_ty(D, f, where, counts):
         if ty != "u16":
             raise TranslateError(where, "spclose helper on a non-u16 field")
         return {"k": "spclose"}
-    m = has(r"parse_with\s*=\s*binrw_parse_mal_allowed_mods\s*,\s*args\((\w+)\)")
-    if m:
+    # the two set-valued tails: recognised by the field's type (the helper functions' names are private and free to
+    # change; their bodies are hand-modelled and tied by the correspondence run)
+    m = has(r"parse_with\s*=\s*\w+\s*,\s*args\((\w+)\)")
+    if m and has(r"write_with\s*=\s*\w+") and re.sub(r"\s", "", ty) == "IndexSet<Vehicle>":
         return {"k": "tailset", "id": "mal", "count": m.group(1)}
-    m = has(r"parse_with\s*=\s*binrw_parse_ipb_bans\s*,\s*args\((\w+)\)")
-    if m:
+    if m and has(r"write_with\s*=\s*\w+") and re.sub(r"\s", "", ty) == "IndexSet<Ipv4Addr>":
         return {"k": "tailset", "id": "ipb", "count": m.group(1)}
     # bool / char maps
     if has(r"br\(\s*map\s*=\s*\|x:\s*u8\|\s*x\s*!=\s*0\s*\)"):
